@@ -461,7 +461,7 @@ class CodeFence(BlockToken):
             stripped_line = line.lstrip(' ')
             diff = len(line) - len(stripped_line)
             if (stripped_line.startswith(cls._open_info[1])
-                    and len(stripped_line.split(maxsplit=1)) == 1
+                    and stripped_line.rstrip().strip(cls._open_info[1][0]) == ''
                     and diff < 4):
                 break
             if diff > cls._open_info[0]:
